@@ -10,5 +10,8 @@ def run(rep, tier, seed):
                                         'ops': ['remove', 'donor', 'slice', 'views', 'optional'], 'norm': True})
     sec['native_entry'] = ('b_edit', 'replay')
     rep.bounded(sec)
+    sec = native.run('b_raw', 'main', {'props': ['C12'], 'tier': tier, 'seed': seed, 'ops': ['reparse', 'rawput']})
+    sec['native_entry'] = ('b_raw', 'replay')
+    rep.bounded(sec)
     rep.remainder = ('the hundreds of raise sites inside individual handlers after a partial splice: only the bounded '
                      'sweep sees them')
